@@ -333,7 +333,8 @@ Definition kind_code (k : ckind) : Z :=
   match k with KHop => 0 | KAwt => 1 | KRunFn => 2 | KDet => 3 | KResume => 4 | KRunAsync => 5 end.
 
 (* body actions: 0..5 submit a closure of that kind, 6 stop(), 7 is_stopped(), 8 any_enqueued(), 9 co_await current(),
-   10+j wait for the outcome of submission j.
+   10+j wait (blocking) for the outcome of submission j; 50+j (last action, run(async) jobs): the coroutine suspends on
+   a future that submission j resolves - for the pool the job simply ends there, the worker is free again.
    The action at position idx of submission j creates label 100 + 10 j + idx.  Nothing follows a stop() (a job must
    not touch the pool after it stopped it); at most 6 actions. *)
 Fixpoint dec_body (base : nat) (idx : nat) (l : list Z) : option body :=
@@ -350,6 +351,7 @@ Fixpoint dec_body (base : nat) (idx : nat) (l : list Z) : option body :=
              | Some k => option_map (cons (ASub k (base + idx))) (dec_body base (S idx) r)
              | None => if (10 <=? z) && (z <? 50)
                        then option_map (cons (AWait (Z.to_nat (z - 10)))) (dec_body base (S idx) r)
+                       else if (50 <=? z) && (z <? 90) then match r with [] => Some [] | _ => None end
                        else None
              end
       end
@@ -368,8 +370,16 @@ Definition add_op (d : dec) (cl : Z) (o : cop) (j k : nat) (x : list nat) : dec 
          [2; client; kind; a1; ...]   submission by client 0..2 with a body of at most 6 actions (< 40 submissions)
          [3; client]                  stop()            [4; client]   the client thread calls worker()
          [5; client; j]               the client waits for the outcome of submission j      (< 30 of these three)
+         [6; client; k]               resume(suspend_point) with k = 1..9 prepared coroutines: k submissions of kind 4
          [9; k1; k2; ...]             schedule
    the j-th accepted submission has label j *)
+(* resume(suspend_point) with k prepared coroutines: one enqueue() per coroutine *)
+Fixpoint add_resumes (d : dec) (cl : Z) (k : nat) : dec :=
+  match k with
+  | O => d
+  | S k' => if Nat.ltb (dj d) 40 then add_resumes (add_op d cl (OSub (dj d) KResume []) (S (dj d)) (dk d) (dext d)) cl k' else d
+  end.
+
 Definition dec_op (d : dec) (op : list Z) : dec :=
   match op with
   | [1; n] => if (1 <=? n) && (n <=? 4) then mkDec (Z.to_nat n) (dj d) (dk d) (dmax d) (dp0 d) (dp1 d) (dp2 d) (dext d) else d
@@ -379,6 +389,7 @@ Definition dec_op (d : dec) (op : list Z) : dec :=
           if (0 <=? cl) && (cl <=? 2) && Nat.ltb (dj d) 40 then add_op d cl (OSub (dj d) kk bd) (S (dj d)) (dk d) (dext d) else d
       | _, _ => d
       end
+  | [6; cl; k] => if (0 <=? cl) && (cl <=? 2) && (1 <=? k) && (k <=? 9) then add_resumes d cl (Z.to_nat k) else d
   | [3; cl] => if (0 <=? cl) && (cl <=? 2) && Nat.ltb (dk d) 30 then add_op d cl OStop (dj d) (S (dk d)) (dext d) else d
   | [4; cl] => if (0 <=? cl) && (cl <=? 2) && Nat.ltb (dk d) 30 then add_op d cl OWorker (dj d) (S (dk d)) (Z.to_nat cl :: dext d) else d
   | [5; cl; l] => if (0 <=? cl) && (cl <=? 2) && (0 <=? l) && (l <? 40) && Nat.ltb (dk d) 30
